@@ -153,3 +153,22 @@ func (e *Environment) GetLocal() map[string]interface{} {
 	}
 	return result
 }
+
+// snapshot returns a new, parentless environment holding a copy of every
+// binding visible from e (the closest scope wins), with binding sources kept.
+// An async block runs on such a copy: the scopes it was created in keep being
+// declared and assigned by the parent while the block runs, and Environment is
+// not safe for concurrent use.
+func (e *Environment) snapshot() *Environment {
+	var chain []*Environment
+	for s := e; s != nil; s = s.parent {
+		chain = append(chain, s)
+	}
+	snap := NewEnvironment()
+	for k := len(chain) - 1; k >= 0; k-- {
+		for name, b := range chain[k].vars {
+			snap.vars[name] = b
+		}
+	}
+	return snap
+}
